@@ -7,6 +7,7 @@ import (
 	"io"
 	"math/rand"
 	"net"
+	"runtime/debug"
 	"strconv"
 	"sync"
 	"time"
@@ -33,6 +34,8 @@ type clH struct {
 	clients  []net.Conn // our scripted incoming clients
 	nclients int
 	epoch    int
+	badEOF   []chan struct{} // clients whose handshake will be refused, in the order they connected
+	extra    []int64
 	note     map[string]int
 }
 
@@ -47,6 +50,33 @@ func (h *clH) freshAddr(answering bool) *net.TCPAddr {
 		return &net.TCPAddr{IP: net.IPv4(127, byte(100+h.seq%100), byte(h.seq/100), 1), Port: h.lnPort}
 	}
 	return &net.TCPAddr{IP: net.IPv4(127, byte(h.seq%90+1), byte(h.seq/90), 2), Port: 1}
+}
+
+var (
+	gcMu    sync.Mutex
+	gcHolds int
+	gcOld   int
+)
+
+// gcHold / gcRelease switch the garbage collector off while at least one case is watching a socket.
+func gcHold() {
+	gcMu.Lock()
+	if gcHolds == 0 {
+		gcOld = debug.SetGCPercent(-1)
+	}
+	gcHolds++
+	gcMu.Unlock()
+}
+
+func gcRelease() {
+	gcMu.Lock()
+	if gcHolds > 0 {
+		gcHolds--
+		if gcHolds == 0 {
+			debug.SetGCPercent(gcOld)
+		}
+	}
+	gcMu.Unlock()
 }
 
 func genConnLimit(r *rand.Rand, tier string) Case {
@@ -137,6 +167,12 @@ func genConnLimit(r *rand.Rand, tier string) Case {
 			if s.OutHandshakes+s.InHandshakes == 0 {
 				continue
 			}
+			// A connection nobody closes is closed by the garbage collector's finaliser sooner or later:
+			// keep the collector out of the way while we look whether the client hangs up by itself.
+			held := len(h.badEOF) > 0
+			if held {
+				gcHold()
+			}
 			dir, ok, _ := v.PumpHandshake(20 * time.Second)
 			switch {
 			case dir == 2 && ok:
@@ -147,14 +183,46 @@ func genConnLimit(r *rand.Rand, tier string) Case {
 				h.in = append(h.in, 5)
 			case dir == 1:
 				h.in = append(h.in, 6)
+				// the client must hang up on a peer whose handshake it refused
+				closed := int64(0)
+				if len(h.badEOF) > 0 {
+					deadline := time.After(3 * time.Second)
+				wait:
+					for {
+						for k, ch := range h.badEOF {
+							select {
+							case <-ch:
+								closed = 1
+								h.badEOF = append(h.badEOF[:k], h.badEOF[k+1:]...)
+								break wait
+							default:
+							}
+						}
+						select {
+						case <-deadline:
+							break wait
+						case <-time.After(2 * time.Millisecond):
+						}
+					}
+				} else {
+					closed = 1 // a handshake that failed because we hung up ourselves
+				}
+				h.extra = []int64{closed}
 			default:
 				h.note["nohandshake"]++
+				if held {
+					gcRelease()
+				}
 				continue
 			}
-		case x < 70: // somebody connects to us
+			if held {
+				gcRelease()
+			}
+		case x < 70: // somebody connects to us (one time in four with the info hash of another torrent)
 			if !s.Running {
 				continue
 			}
+			bad := r.Intn(4) == 0
 			d := net.Dialer{LocalAddr: &net.TCPAddr{IP: net.IPv4(127, 0, byte(1+h.nclients/250), byte(1+h.nclients%250))}, Timeout: 5 * time.Second}
 			c, err := d.Dial("tcp", net.JoinHostPort("127.0.0.1", strconv.Itoa(v.Port())))
 			if err != nil {
@@ -163,15 +231,26 @@ func genConnLimit(r *rand.Rand, tier string) Case {
 			}
 			h.clients = append(h.clients, c)
 			h.nclients++
+			eof := make(chan struct{})
+			hash := ih
+			if bad {
+				hash[0] ^= 0xff
+				h.badEOF = append(h.badEOF, eof)
+			}
 			go func(c net.Conn, k int) {
-				_, _ = c.Write(btHandshake(ih, fmt.Sprintf("-SC%04d-scriptedpeer", k)))
+				_, _ = c.Write(btHandshake(hash, fmt.Sprintf("-SC%04d-scriptedpeer", k)))
 				_, _ = io.Copy(io.Discard, c)
+				close(eof)
 			}(c, 1000*h.epoch+h.nclients)
 			if !v.PumpConn(10 * time.Second) {
 				h.note["noconn"]++
 				continue
 			}
-			h.in = append(h.in, 4)
+			if bad {
+				h.in = append(h.in, 11)
+			} else {
+				h.in = append(h.in, 4)
+			}
 		case x < 82: // an established peer goes away
 			if s.OutPeers+s.InPeers == 0 {
 				continue
@@ -238,6 +317,7 @@ func genConnLimit(r *rand.Rand, tier string) Case {
 				c.Close()
 			}
 			h.clients = nil
+			h.badEOF = nil
 			h.nclients = 0 // after a restart the same addresses come back
 			h.epoch++
 			h.in = append(h.in, 9)
@@ -255,6 +335,8 @@ func genConnLimit(r *rand.Rand, tier string) Case {
 			h.in = append(h.in, 10)
 		}
 		h.observe()
+		h.obs = append(h.obs, h.extra...)
+		h.extra = nil
 		done++
 	}
 	if v.Crash != "" {
